@@ -242,6 +242,10 @@ def decrypt_recipient(
             # symmetric key.
             assert isinstance(alg, JWEDirectEncryption)
             cek = alg.compute_cek(enc.cek_size, recipient)
+    elif recipient.encrypted_key is None:
+        # the "encrypted_key" member is optional in the JSON serializations,
+        # but every mode that is not direct has a key to unwrap or decrypt
+        raise InvalidEncryptedKeyError('Missing JWE Encrypted Key value')
     elif isinstance(alg, JWEKeyAgreement):
         agreed_upon_key: bytes
         if alg.tag_aware:
